@@ -59,7 +59,9 @@ class Report:
         os.makedirs(os.path.join(VERIF, "evidence", "replay"), exist_ok=True)
         lines = []
         for o, kf in kn:
-            lines.append("KNOWN-FINDING: property=%s %s [%s %s]" % (self.prop, kf.get("what", o["detail"]), o["rule"], o["key"]))
+            ln = "KNOWN-FINDING: property=%s %s [%s %s]" % (self.prop, kf.get("what", o["detail"]), o["rule"], o["key"])
+            if ln not in lines:
+                lines.append(ln)
         for o in new:
             rp = os.path.join(VERIF, "evidence", "replay", "%s-%s.json" % (self.prop, _safe(o["rule"] + "-" + o["key"])))
             with open(rp, "w") as fh:
